@@ -68,6 +68,16 @@ def frame_desc(draw) -> Dict[str, Any]:
         if has_rank:
             row["rank"] = draw(st.sampled_from([0, 1, 2]))
         rows.append(row)
+    # frames of several ranks concatenated (what RankFilter is for): every rank numbers its events itself, so index labels
+    # repeat across ranks
+    dup = has_rank and n >= 2 and draw(st.sampled_from([True, False, False, False]))
+    if dup:
+        per_rank: Dict[int, int] = {}
+        for row in rows:
+            per_rank[row["rank"]] = per_rank.get(row["rank"], 0) + draw(st.sampled_from([1, 1, 2]))
+            row["index"] = per_rank[row["rank"]]
+    for i, row in enumerate(rows):
+        row["_uid"] = i  # the row's position in the input frame: its identity for the oracle
     variant = draw(st.sampled_from(["encoded", "encoded", "s_name", "replace"]))
     str_dtype = draw(st.sampled_from(["str", "object"]))
     return {"rows": rows, "sym_order": list(sym_order), "variant": variant, "str_dtype": str_dtype,
@@ -123,9 +133,9 @@ def filter_case(draw) -> Dict[str, Any]:
         for r in frame["rows"]:
             r.setdefault("iteration", its[0])
         kept, _ = model_apply(first, frame["rows"], frame["cols"], pass_table, frame["variant"])
-        kept_ids = {r["index"] for r in kept}
+        kept_ids = {r["_uid"] for r in kept}
         for r in frame["rows"]:
-            late = r["index"] in kept_ids
+            late = r["_uid"] in kept_ids
             if draw(st.integers(0, 9)) == 0:
                 late = not late  # some noise: the shape is usual, not guaranteed
             r["iteration"] = draw(st.sampled_from(its[1:])) if late else its[0]
@@ -227,7 +237,9 @@ def build_frame(fd: Dict[str, Any]):
     st_ = TraceSymbolTable()
     st_.add_symbols(fd["sym_order"])
     rows = fd["rows"]
-    colnames = ["index", "ts", "dur", "name", "cat", "pid", "tid", "correlation"] + \
+    for i, r in enumerate(rows):
+        r.setdefault("_uid", i)  # inputs recorded before the identity column existed
+    colnames = ["index", "_uid", "ts", "dur", "name", "cat", "pid", "tid", "correlation"] + \
                [c for c in ("stream", "iteration", "rank") if fd["cols"][c]]
     data = {c: [r[c] for r in rows] for c in colnames}
     df = pd.DataFrame(data)
@@ -280,14 +292,17 @@ def build_filter(f: Dict[str, Any], table, variant: str):
 
 
 def _ids(res) -> List[int]:
-    return [int(i) for i in res.index]
+    """Identity (position in the input frame) of the returned rows, in returned order."""
+    if "_uid" not in res.columns:
+        return []
+    return [int(i) for i in res["_uid"]]
 
 
 def compare(res, df, want_rows: List[Dict[str, Any]], has_cols: bool, what: str) -> None:
-    want_ids = [r["index"] for r in want_rows]
-    require(_ids(res) == want_ids, f"{what}:selected_ids", lambda: f"want {want_ids}, got {_ids(res)}")
+    want_ids = [r["_uid"] for r in want_rows]
+    require(_ids(res) == want_ids, f"{what}:selected_ids", lambda: f"want rows {want_ids}, got rows {_ids(res)} (positions in the input frame)")
     if want_ids and has_cols:
-        exp = df.loc[want_ids]
+        exp = df.iloc[want_ids]
         require(list(res.columns) == list(df.columns), f"{what}:columns", lambda: f"{list(res.columns)} vs {list(df.columns)}")
         require(res.equals(exp), f"{what}:row_contents", lambda: f"got\n{res.to_string()}\nwant\n{exp.to_string()}")
 
@@ -304,6 +319,8 @@ def check(case: Dict[str, Any]) -> CaseInfo:
     call_table = table if pass_table else None
     # memcpy filter needs a table from somewhere; it falls back to an empty table otherwise (returns an empty frame)
     classes: List[str] = [f["kind"], "variant:" + variant]
+    if len({r["index"] for r in rows}) < len(rows):
+        classes.append("repeated_index_labels")
 
     def run(flt_desc, frame):
         flt = build_filter(flt_desc, table, variant)
@@ -356,7 +373,7 @@ def check(case: Dict[str, Any]) -> CaseInfo:
             inter = None
             for m in members:
                 sel, _ = model(m, rows)
-                s = {r["index"] for r in sel}
+                s = {r["_uid"] for r in sel}
                 inter = s if inter is None else inter & s
             require(set(_ids(res)) == inter, "composite:intersection", lambda: f"{_ids(res)} vs {sorted(inter)}")
             perm_f = dict(f, members=[members[i] for i in f["perm"]])
@@ -399,7 +416,7 @@ def view(case):
 
 def campaigns(tier: str) -> List[Campaign]:
     return [Campaign("filters", filter_case(), check, quick=4000, thorough=240000, quick_shards=8, fuzz_runs=80000,
-                     required_classes={"proper_subset": 0.15, "row_local_composite": 0.08, "positional_member_after_a_member_that_removed_the_first_iteration": 0.02, "name_on_decoded": 0.025,
+                     required_classes={"proper_subset": 0.15, "row_local_composite": 0.08, "positional_member_after_a_member_that_removed_the_first_iteration": 0.02, "repeated_index_labels": 0.05, "name_on_decoded": 0.025,
                                        "name": 0.02, "gpu": 0.02, "memcpy": 0.02, "iter_index": 0.02, "time": 0.02,
                                        "filter_object_reused_with_other_table": 0.2},
                      sample_view=view)]
